@@ -64,10 +64,19 @@ func (v Val) TV() *pb.TypedValue {
 		return &pb.TypedValue{Value: &pb.TypedValue_LeaflistVal{LeaflistVal: sa}}
 	case "empty":
 		return &pb.TypedValue{}
-	case "none", "":
+	case "none", "", "deprecated":
 		return nil
 	}
 	panic("gn: unknown value kind " + v.Kind)
+}
+
+// MakeUpdate builds an update of path p carrying v. Kind "deprecated" uses the
+// deprecated Update.value field (JSON bytes S) and leaves val unset.
+func MakeUpdate(p *pb.Path, v Val) *pb.Update {
+	if v.Kind == "deprecated" {
+		return &pb.Update{Path: p, Value: &pb.Value{Value: []byte(v.S), Type: pb.Encoding_JSON}}
+	}
+	return &pb.Update{Path: p, Val: v.TV()}
 }
 
 // SameValue is the independent notion of "the value did not change" used by
